@@ -2,8 +2,8 @@
 
 1. design level   NodeStore.tla explored exhaustively by TLC (MC_NodeStore_*.cfg): RetainedReadable,
                   PrunedNeverDifferent, NoWrongNode, RootCanonical, PrunedUnreadable
-2. impl -> model  harness/cmd/nodestore drives the REAL muxdb.Trie over the recording engine through seeded and
-                  small-exhaustive histories over the option matrix; Trace_NodeStore.tla replays every event with the
+2. impl -> model  harness/cmd/nodestore drives the REAL muxdb.Trie - over the recording engine and over the real muxdb.Open on
+                  a scratch directory - through seeded and small-exhaustive histories over the option matrix; Trace_NodeStore.tla replays every event with the
                   actions of NodeStore.tla and compares reads (observables) and key spaces (projections)
 3. end to end     harness/cmd/prunee2e: a real chain pruned repeatedly by the REAL pruner (hook H4), all state / index /
                   tx reads compared with the pre-prune reads before and after re-opening
@@ -62,6 +62,15 @@ def run(ctx):
         args = ["-runs", runs, "-seed", ctx.seed * 131 + nib * 7 + keylen, "-nib", nib, "-keylen", keylen, "-steps", steps]
         events, st = ns.record(ctx, "seeded", args, label)
         ns.validate(ctx, events, st, label, {"mode": "seeded", "args": args})
+        stats += st
+    # the REAL muxdb.Open on a scratch directory (removed after each run): the key layout persisted at creation must win
+    # over the Options of every later Open (small factors 2,3,4 and 256, re-opened asking for 1,2,3,4,256,max), prune
+    # targets not aligned to the partition factor, every root read back after every step
+    for nib, keylen, runs in ([(2, 2, 12)] if q else [(2, 2, 150), (3, 2, 100)]):
+        label = "disk-n%dk%d" % (nib, keylen)
+        args = ["-runs", runs, "-seed", ctx.seed * 29 + nib, "-nib", nib, "-keylen", keylen, "-steps", 12]
+        events, st = ns.record(ctx, "disk", args, label)
+        ns.validate(ctx, events, st, label, {"mode": "disk", "args": args})
         stats += st
     # one-byte values: full nodes without a hash are embedded in their parent (a storage layout the design model does
     # not describe: Hashed == TRUE) - validated on the observables only
@@ -122,10 +131,14 @@ def run(ctx):
     ctx.assumptions += [
         "hash function is an injective oracle; the canonical root is checked against a trie built from scratch by the same hasher",
         "values are >= 32 bytes so that every full node is stored standalone (Hashed == TRUE in NodeStore.tla)",
-        "prune targets are multiples of the hist partition factor, the block target-1 is on the chain every block >= target "
-        "descends from, and neither the root cache nor a block under construction is below the target (what "
-        "awaitUntilPrunable + MaxStateHistory give in thor); each of these assumptions is shown necessary by a "
-        "MC_NodeStore_teeth_*.cfg variant",
+        "the block target-1 is on the chain every block >= target descends from, and neither the root cache nor a block "
+        "under construction is below the target (what awaitUntilPrunable + MaxStateHistory give in thor); each of these "
+        "assumptions is shown necessary by a MC_NodeStore_teeth_*.cfg variant",
+        "blocks below the prune target whose hist partition is not range-deleted yet (round still running, or target not "
+        "aligned to the partition factor) are 'in flight': their reads are only constrained by the in-flight probe "
+        "(known finding inflight-read-differs)",
+        "the key layout (partition factors) is persistent state fixed at creation; re-opening with other Options must "
+        "not change it (LayoutPersistent; checked on the real muxdb.Open over a scratch directory)",
         "hash-skipped tries: one block does not both delete keys and insert new ones (node versions would depend on "
         "update order; thor's only hash-skipped trie is insert-only)",
         "exhaustive only inside the bounds of MC_NodeStore_*.cfg; larger histories are sampled (seeded) on the real code",
